@@ -737,6 +737,11 @@ def gen_seq(ctx):
         forb = [x for x in SEQ_LISTEN if py_blocked(pols[pi], ipaddress.ip_address(x))]
         return perm, forb
 
+    # replayed sequences first (policies are indices into DIAL_POLICIES, which is fixed)
+    for c in replay_cases(ctx):
+        sh = c.get("seq_history") if isinstance(c, dict) else None
+        if sh and all(o.get("policy", 0) < len(pols) for o in sh["ops"]) and sh["start"] < len(pols):
+            hists.append({"start": sh["start"], "script": sh["script"], "tag": "replay", "ops": sh["ops"]})
     for pi in range(len(pols)):
         perm, forb = perm_forb(pi)
         if not perm or not forb:
@@ -829,8 +834,9 @@ def g_seq_case(start_dump, h, rs):
                                                           glist(r["connects"], g_bytes_hex), glist(r["dialed"], lambda d: hexs(d.encode()))))
         elif op["op"] == "connin":
             steps.append("(SConnIn %s %s %s)" % (gN(seq_key(op)), g_tracked(r["after"]), glist(r["dialed"], lambda d: hexs(d.encode()))))
-        else:
+        elif not r["after"]["tracked"]:
             steps.append("(SExpire %s %s)" % (gN(seq_key(op)), g_tracked(r["after"])))
+        # an expiry that removed nothing is no step (the sweeper is not C06's subject)
     return "(%s, %s)" % (g_policy(start_dump), "[" + "; ".join(steps) + "]")
 
 
@@ -881,6 +887,7 @@ def run_seq(ctx):
             before, after = r["before"], r["after"]
             dials = [d.encode() for d in r["dialed"]]
             info = {"history": None, "step": oi, "policy_in_force": pol, "script": h["script"], "recorder_port": port,
+                    "seq_history": {"start": h["start"], "ops": h["ops"], "script": h["script"]},
                     "observed": {"tracked_before": dict(before, covert=unhx(before["covert"]).decode("latin1")),
                                  "tracked_after": dict(after, covert=unhx(after["covert"]).decode("latin1")),
                                  "handed_to_Connect": [unhx(c).decode("latin1") for c in r["connects"]],
@@ -929,7 +936,8 @@ def run_seq(ctx):
                         ctx.count(("seq", hi, oi, pol), nontrivial=True, kind="seq/ingest-new-not-valid/" + (
                             "not-tracked" if not after["tracked"] else "covert-refused" if exp == b"" else "dropped-after-check"))
                         if exp != b"" and r["valid_in"] and not r["g_live"] and not r["pblock"]:
-                            ctx.broken("seq-harness", "covert accepted by the policy and nothing else in the way, but the registration is not valid", info)
+                            # admission itself (who becomes valid) is C07's subject; here it only means there is nothing to observe
+                            ctx.cov["histogram"]["seq/unexplained-not-valid"] = ctx.cov["histogram"].get("seq/unexplained-not-valid", 0) + 1
                 for c in r["connects"]:
                     cb = unhx(c)
                     if lit is None or cb != lit:
@@ -950,10 +958,12 @@ def run_seq(ctx):
             else:
                 trail.append("client %d's registration expires (RemoveOldRegistrations)" % key)
                 info["history"] = list(trail)
-                ctx.count(("seq", hi, oi), nontrivial=True, kind="seq/expire")
                 if after["tracked"]:
-                    ctx.broken("seq-harness", "the registration is still tracked after its forced expiry", info)
-                admitted.pop(key, None)
+                    # the sweeper is C08's subject: the step is treated as if it had not happened
+                    ctx.count(("seq", hi, oi), nontrivial=True, kind="seq/expire-did-not-remove")
+                else:
+                    ctx.count(("seq", hi, oi), nontrivial=True, kind="seq/expire")
+                    admitted.pop(key, None)
                 continue
             # the dial recorder: nothing but the literal admitted for this registration may be dialled
             for d in dials:
